@@ -195,6 +195,39 @@ def defineRegister (L : Layout) (trapIds : List Nat) (qids : Option (List QId)) 
       else place L trapIds qs
     | none => place L trapIds (defaultIds trapIds.length)
 
+/-! ### Registers constructed directly with `layout=` / `trap_ids=` -/
+
+/-- A register position given by the caller, in micro-units, as an exact rational: the
+harness sends the integer `m` when the float is itself a rounded value (`x == np.round(x, 6)`,
+i.e. the very float a trap at `m` has) and the exact value `x·10⁶` (never an integer then)
+otherwise.  `_validate_layout` compares the raw register coordinates with the layout's
+rounded trap coordinates exactly (`reg_coord != trap_coords[trap_id]`). -/
+abbrev RPos := List Rat
+
+/-- The qubit sits exactly on trap `t`. -/
+def onTrap (L : Layout) (p : RPos) (t : Nat) : Bool :=
+  p == (L.trapCoord t).map (fun (z : Int) => (z : Rat))
+
+/-- Every qubit on the trap it claims (`for reg_coord, trap_id in zip(…)`). -/
+def allOnTraps (L : Layout) : List (QId × RPos) → List Nat → Bool
+  | q :: qs, t :: ts => onTrap L q.2 t && allOnTraps L qs ts
+  | _, _ => true
+
+/-- `Register(qubits, layout=L, trap_ids=ids)` / `Register3D(…)` / `from_coordinates(…, layout=,
+trap_ids=)`: `BaseRegister.__init__` then `_validate_layout` (dimensionality, unique trap ids,
+as many trap ids as qubits, existing trap ids, every qubit exactly on its trap).  `dim` is the
+dimensionality of the given positions. -/
+def mkRegisterDirect (L : Layout) (dim : Nat) (qubits : List (QId × RPos)) (trapIds : List Nat) :
+    Res Reg :=
+  if qubits.isEmpty then .err .emptyRegister
+  else if L.dim ≠ dim then .err .layoutMismatch
+  else if ¬ trapIds.Nodup then .err .dupTrapId
+  else if trapIds.length ≠ qubits.length then .err .layoutMismatch
+  else if ¬ trapIds.all (fun i => decide (i < L.nTraps)) then .err .badTrapId
+  else if ¬ allOnTraps L qubits trapIds then .err .layoutMismatch
+  else .ok { dim := dim, qubits := (qubits.map (·.1)).zip (trapIds.map L.trapCoord),
+             trapIds := trapIds }
+
 /-! ### Mappable registers -/
 
 structure Mappable where
